@@ -64,6 +64,30 @@ Definition c19_spec (a : list val) (obs : val) : bool :=
   | _, _ => false
   end.
 
+(** [c19.BigKeys]  args = [T; n; start; stride; ref]: n counter keys shared by T goroutines, each computing the
+    digest of FirstDiffBits / CountPrefixes over all of them; [ref] = the digest computed alone under GOMAXPROCS(1).
+    Observation: [per-goroutine digests; keys unchanged].  Same model and specification as above: every goroutine
+    obtains the reference, nothing changes - whatever the number of CPUs the runtime uses. *)
+Definition c19_big_dom (t n : Z) : bool := (1 <=? t) && (t <=? 64) && (2 <=? n) && (n <=? 2097152).
+
+Definition c19_big_run (a : list val) : val :=
+  match a with
+  | [VZ t; VZ n; VZ start; VZ stride; ref] =>
+      if c19_big_dom t n
+      then let '(_, rss) := run_seq (c19_pool (Z.to_nat t) [ref]) (VZ start, VZ stride) in
+           VL [VL (map (fun rs => match rs with [r] => r | _ => VBad end) rss); VZ 1]
+      else VBad
+  | _ => VBad
+  end.
+
+Definition c19_big_spec (a : list val) (obs : val) : bool :=
+  match a, obs with
+  | [VZ t; VZ n; VZ start; VZ stride; ref], VL [VL threads; VZ keys_ok] =>
+      (Z.of_nat (List.length threads) =? t) && forallb (fun th => val_eqb th ref) threads && (keys_ok =? 1)
+  | _, _ => false
+  end.
+
 Definition ops_C19 : list opdef := [
-  {| op_name := "c19.Batch"; op_run := c19_run; op_spec := c19_spec |}
+  {| op_name := "c19.Batch"; op_run := c19_run; op_spec := c19_spec |};
+  {| op_name := "c19.BigKeys"; op_run := c19_big_run; op_spec := c19_big_spec |}
 ].
